@@ -239,21 +239,60 @@ def check(ctx):
             if not tu.in_main_file(f):
                 continue
             body = tu.body(f)
+            # straight-line symbolic values of the function's locals (initialisers, `=` and `+=` at the top level of the body): a hoisted
+            # sub-expression or a running `offset += ...` accumulator gives the same polynomial as the one-expression form
+            lenv = {}
+            nested_assigned = set()
+            at_assign = []          # (expression, statement, polynomial when assigned): a section start computed once and then advanced in a loop
+            for st in C.kids(body):
+                if st.get('kind') == 'DeclStmt':
+                    for d in C.kids(st):
+                        if d.get('kind') == 'VarDecl' and C.kids(d) and d.get('init'):
+                            lenv[d['name']] = poly(tu, C.kids(d)[-1], lenv)
+                            if C.strip(C.kids(d)[-1]).get('kind') == 'BinaryOperator':
+                                at_assign.append((C.kids(d)[-1], d, lenv[d['name']], d['name']))
+                elif st.get('kind') in ('BinaryOperator', 'CompoundAssignOperator') and st.get('opcode') in ('=', '+=') and C.declref(C.kids(st)[0]):
+                    nm_ = C.declref(C.kids(st)[0])
+                    val_ = poly(tu, C.kids(st)[1], lenv)
+                    lenv[nm_] = val_ if st['opcode'] == '=' else padd(lenv.get(nm_, {(nm_,): 1}), val_)
+                    if st['opcode'] == '=' and C.strip(C.kids(st)[1]).get('kind') == 'BinaryOperator':
+                        at_assign.append((C.kids(st)[1], st, lenv[nm_], nm_))
+                else:
+                    for l_, r_, s_ in C.assignments(st):
+                        if C.declref(l_):
+                            nested_assigned.add(C.declref(l_))
+                    for x in C.walk(st):
+                        if x.get('kind') == 'UnaryOperator' and x.get('opcode') in ('++', '--') and C.declref(C.kids(x)[0]):
+                            nested_assigned.add(C.declref(C.kids(x)[0]))
+            for nm_ in nested_assigned:
+                lenv.pop(nm_, None)
+
+            def sized(e_):
+                return any('blob_size' in t_ for k_ in poly(tu, e_, lenv) for t_ in k_)
             # candidate offset expressions
             exprs = []
-            for l, r, st in C.assignments(body):
-                if C.declref(l) == 'offset' and st.get('opcode') == '=' and 'blob_size' in tu.text_of(r):
-                    exprs.append((r, st))
-            for d in C.walk(body):
-                if d.get('kind') == 'VarDecl' and d.get('name') == 'offset' and C.kids(d) and 'blob_size' in tu.text_of(C.kids(d)[-1]):
-                    exprs.append((C.kids(d)[-1], d))
-            for c in C.calls(body, ('g_info_new', '_g_info_init', 'g_info_init')):
+            for c in C.calls(body):
+                if C.callee(c) in tu.functions and C.callee(c) != fname and tu.functions[C.callee(c)].get('storageClass') == 'static':
+                    continue        # static offset helpers are inlined into the polynomial, not candidates themselves
                 for a in C.call_args(c):
-                    if 'blob_size' in tu.text_of(a) and C.strip(a).get('kind') == 'BinaryOperator':
+                    if sized(a) and (C.strip(a).get('kind') == 'BinaryOperator' or C.declref(a) in lenv):
                         exprs.append((a, c))
             for rs in C.walk(body):
-                if rs.get('kind') == 'ReturnStmt' and C.kids(rs) and 'blob_size' in tu.text_of(C.kids(rs)[0]) and C.strip(C.kids(rs)[0]).get('kind') == 'BinaryOperator':
+                if rs.get('kind') == 'ReturnStmt' and C.kids(rs) and sized(C.kids(rs)[0]) and (C.strip(C.kids(rs)[0]).get('kind') == 'BinaryOperator' or C.declref(C.kids(rs)[0]) in lenv):
                     exprs.append((C.kids(rs)[0], rs))
+            seen_p = []
+            uniq = []
+            for e_, st_ in exprs:
+                pp_ = poly(tu, e_, lenv)
+                if pp_ not in seen_p:
+                    seen_p.append(pp_)
+                    uniq.append((e_, st_, pp_))
+            for e_, st_, pp_, nm_ in at_assign:
+                # only locals that are advanced later inside a loop/branch (their straight-line value was dropped above)
+                if nm_ in nested_assigned and any('blob_size' in t_ for k_ in pp_ for t_ in k_) and pp_ not in seen_p:
+                    seen_p.append(pp_)
+                    uniq.append((e_, st_, pp_))
+            exprs = uniq
             if not exprs:
                 continue
             # which section does this function address?
@@ -269,8 +308,7 @@ def check(ctx):
                         break
             if kind is None:
                 continue
-            for e, st in exprs:
-                got = poly(tu, e)
+            for e, st, got in exprs:
                 has_n = any('n' in k for k in got)
                 if kind == 'DISCRIMINATOR':
                     # discriminator constants follow the last section of a union
